@@ -427,6 +427,60 @@ pub fn run(args: &Args) -> i32 {
         rec.sub("threshold_days", json!({"windows": ws.len(), "evaluations": t.evals, "out_of_range": t.nontrivial}));
         total = total.merge(t);
     }
+    // the ambient clock (the only input the harness does not choose): every reading lies between two readings of the system
+    // clock taken around it, satisfies the invariant, and the zone routes agree with the lookup at that instant
+    #[cfg(feature = "tz-std")]
+    if !args.digest_mode {
+        let mut n = 0u64;
+        let zs = zones(&cyc);
+        let izs: Vec<ImplZone> = zs.iter().map(|z| ImplZone::from_model(z).unwrap()).collect();
+        const TOL: i128 = 2_000_000_000;
+        let now_ns = || std::time::SystemTime::now().duration_since(std::time::UNIX_EPOCH).map(|d| d.as_nanos() as i128).unwrap_or(0);
+        for round in 0..2000 {
+            let a = now_ns();
+            let u = UtcDateTime::now();
+            let b = now_ns();
+            n += 1;
+            match u {
+                Ok(u) => {
+                    let t = u.total_nanoseconds();
+                    // the system clock is not monotonic: rounds in which it stepped are skipped, and a reading may lie up to 2 s
+                    // outside the bracket
+                    if b < a || b - a > 1_000_000_000 {
+                        continue;
+                    }
+                    if !(a - TOL <= t && t <= b + TOL) || u.nanoseconds() >= 1_000_000_000 || expect_fields(&cyc, u.unix_time(), 0).map_or(true, |f| (u.year(), u.month(), u.month_day(), u.hour(), u.minute(), u.second()) != f) {
+                        rec.violation("clock", json!({"kind":"clock","what":"UtcDateTime::now"}), json!({"between_ns": [a.to_string(), b.to_string()]}), json!(format!("{u:?}")));
+                    }
+                }
+                Err(e) => rec.violation("clock", json!({"kind":"clock","what":"UtcDateTime::now"}), json!("Ok"), json!(err_name(&e))),
+            }
+            let iz = &izs[round % izs.len()];
+            if let Ok(zr) = iz.zref() {
+                let a = now_ns();
+                let d = DateTime::now(zr);
+                let owned = iz.owned();
+                let cur = match &owned {
+                    Ok(o) => o.find_current_local_time_type().map(|l| *l),
+                    Err(_) => continue,
+                };
+                let b = now_ns();
+                n += 2;
+                if let Ok(d) = d {
+                    let t = d.total_nanoseconds();
+                    let same_type_whole_window = zr.find_local_time_type((a / 1_000_000_000) as i64).ok() == zr.find_local_time_type((b / 1_000_000_000) as i64).ok();
+                    if b < a || b - a > 1_000_000_000 {
+                        continue;
+                    }
+                    if !(a - TOL <= t && t <= b + TOL) || dt_invariant(&cyc, &d).is_err() || (same_type_whole_window && zr.find_local_time_type(d.unix_time()).ok() != Some(d.local_time_type())) || (same_type_whole_window && cur.as_ref().ok() != Some(d.local_time_type())) {
+                        rec.violation("clock", json!({"kind":"clock","what":"DateTime::now / find_current_local_time_type"}), json!({"between_ns": [a.to_string(), b.to_string()]}), json!(format!("{d:?} / {cur:?}")));
+                    }
+                }
+            }
+        }
+        rec.sub("clock", json!({"readings": n}));
+        total.evals += n;
+    }
     let t2 = sweep_chains(&cyc, &rec);
     rec.sub("chains", json!({"evaluations": t2.evals}));
     total = total.merge(t2);
